@@ -8,6 +8,11 @@
   every depth (full strength since /repo 98e9b00), on stacks and read off the tree.
   Doctype: `C14_doctype_*` — the doctype names the root element as its start tag spells it
   (since /repo 5f64b4d).
+  Round trip (`C14_options_*`, Lemmas/SerOpt*.lean, LexDecl.lean): with any CDATA-section elements,
+  `unescaped_gt` on or off, with or without an XML declaration, `parse(serialize_xml_string(doc))` is the
+  original tree (reference tokenizer + builder, as C01_roundtrip); with indentation it is `prettyTree sup doc`
+  (Lemmas/SerIndent*.lean, LexLines.lean): the original plus whitespace-only text nodes, none inside mixed
+  or suppressed content nor in `xml:space="preserve"` scope (`C14_options_indent`, `C14_indent_where`).
 -/
 import XotModel.Lemmas.Entity
 import XotModel.Lemmas.Output
@@ -18,6 +23,10 @@ import XotModel.Lemmas.PrettyBetween
 import XotModel.Lemmas.Prolog
 import XotModel.Lemmas.XmlDeclRest
 import XotModel.Lemmas.CdataToken
+import XotModel.Lemmas.C14Proofs
+import XotModel.Lemmas.SerOptDecl
+import XotModel.Lemmas.SerIndentWhere
+import XotModel.Props.C01
 
 namespace XotModel.Props
 open XotModel XotModel.Gen
@@ -36,14 +45,8 @@ theorem C14_cdata_cr_reference : refOk '\r' ['&','#','x','D',';'] = true := by d
     `]]>`, so none contains `]]>` — with the reference `&#xD;` between sections for every carriage
     return; read back (section contents verbatim, the reference as CR) it spells `s`; for every
     `s`, in particular every run of `]` and `>`. -/
-theorem C14_cdata (s : Str) : cdataSectionsContent (serializeCdata s) = some s := by
-  obtain ⟨hO, hS, hR, hC⟩ := C14_cdata_literals
-  have h := cdataGo_sections hO hS hR hC s 0 0 (by omega) (by intro; rfl)
-  simp only [List.replicate_zero, List.nil_append, Nat.zero_add] at h
-  unfold cdataSectionsContent serializeCdata
-  rw [hO]
-  simp only [List.cons_append, List.nil_append]
-  rw [afterSection_open, h]
+theorem C14_cdata (s : Str) : cdataSectionsContent (serializeCdata s) = some s :=
+  cdata_sections_roundtrip s
 
 theorem C14_gt_tables :
     tableOk textEscapes = true ∧ tableCovers false textEscapes = true ∧
@@ -51,20 +54,12 @@ theorem C14_gt_tables :
     textGtEscape.contains '>' = false := by decide
 
 /-- With `unescaped_gt` the text still decodes to the original value … -/
-theorem C14_gt (s : Str) : parseText (serializeText true s) = .ok s := by
-  obtain ⟨h1, h2, h3, _, _⟩ := C14_gt_tables
-  unfold parseText parseContent serializeText
-  simp only [if_true]
-  rw [serializeTextGtGo_eq]
-  simpa using gt_roundtrip h1 h2 h3 s [] 0 0
+theorem C14_gt (s : Str) : parseText (serializeText true s) = .ok s :=
+  gt_text_roundtrip s
 
 /-- … and never contains `]]>`, nor a raw `<`. -/
-theorem C14_gt_no_cdata_end (s : Str) : hasCdataEnd (serializeText true s) = false := by
-  obtain ⟨_, _, _, h4, h5⟩ := C14_gt_tables
-  unfold serializeText
-  simp only [if_true]
-  rw [serializeTextGtGo_eq]
-  exact gtOut_noCdataEnd h4 h5 s [] rfl
+theorem C14_gt_no_cdata_end (s : Str) : hasCdataEnd (serializeText true s) = false :=
+  gt_no_cdata_end s
 
 theorem C14_gt_lexsafe (s : Str) : '<' ∉ serializeText true s := by
   unfold serializeText
@@ -84,32 +79,15 @@ example : serializeText true [']',']','>'] = "]]&gt;".toList := by decide
 theorem C14_pretty_content (esc : Escapers) (env : Env) (pr : TokenParams) (sup : List Nat) (t : Tree)
     (start : Path) (ks : List (Path × Output × PrettyOutputToken))
     (h : prettyTokensWith esc env pr sup t start = .ok ks) :
-    tokensWith esc env pr t start = .ok (ks.map erasePretty) := by
-  unfold prettyTokensWith at h
-  unfold tokensWith
-  have := prettyAll_erase esc env pr t sup [] (initStack t start) (genOutputs t start)
-  cases hp : prettyAllWith esc env pr sup t [] (initStack t start) (genOutputs t start) with
-  | ok l =>
-    simp only [hp] at h this
-    cases h
-    rw [this]
-  | err e => simp [hp] at h
-  | panic => simp [hp] at h
+    tokensWith esc env pr t start = .ok (ks.map erasePretty) :=
+  pretty_content esc env pr sup t start ks h
 
 /-- Conversely: whenever the plain token stream exists, so does the pretty one, and it erases to it. -/
 theorem C14_pretty_content_conv (esc : Escapers) (env : Env) (pr : TokenParams) (sup : List Nat)
     (t : Tree) (start : Path) (l : List (Path × Output × OutputToken))
     (h : tokensWith esc env pr t start = .ok l) :
-    ∃ ks, prettyTokensWith esc env pr sup t start = .ok ks ∧ ks.map erasePretty = l := by
-  unfold tokensWith at h
-  cases hr : renderAllWith esc env pr t (initStack t start) (genOutputs t start) with
-  | ok l' =>
-    simp only [hr] at h
-    cases h
-    obtain ⟨ks, hk, he⟩ := renderAll_lift_pretty esc env pr t sup [] _ _ _ hr
-    exact ⟨ks, by simp [prettyTokensWith, hk], he⟩
-  | err e => simp [hr] at h
-  | panic => simp [hr] at h
+    ∃ ks, prettyTokensWith esc env pr sup t start = .ok ks ∧ ks.map erasePretty = l :=
+  pretty_content_conv esc env pr sup t start l h
 
 /-- The pretty string therefore consists of the plain tokens plus, per token, `2·indentation`
     spaces in front and at most one line feed behind: nothing else is added or removed. -/
@@ -120,21 +98,8 @@ theorem C14_pretty_string (esc : Escapers) (env : Env) (pr : TokenParams) (sup :
       s = ks.flatMap (fun k => prettyTokenBytes k.2.2) ∧
       ∀ k ∈ ks, prettyTokenBytes k.2.2 =
         (if k.2.2.indentation > 0 then indentBytes k.2.2.indentation else [])
-          ++ tokenBytes (erasePretty k).2.2 ++ (if k.2.2.newline then prettyNewline else []) := by
-  unfold serializePrettyWith serializePrettyWriteWith bufferToString at h
-  have ho := writePrettyGo_outcome esc env pr t sup [] (initStack t start) (genOutputs t start)
-  cases hr : prettyAllWith esc env pr sup t [] (initStack t start) (genOutputs t start) with
-  | ok ks =>
-    have hk : prettyTokensWith esc env pr sup t start = .ok ks := by simp [prettyTokensWith, hr]
-    refine ⟨ks, C14_pretty_content esc env pr sup t start ks hk, ?_, ?_⟩
-    · rw [writePrettyGo_of_prettyAll_ok esc env pr t sup _ _ _ _ hr] at h
-      simp at h
-      rw [← h]; rfl
-    · intro k _
-      obtain ⟨p, o, ind, sp, tx, nl⟩ := k
-      cases sp <;> simp [prettyTokenBytes, tokenBytes, erasePretty]
-  | err e => rw [hr] at ho; simp only [] at ho; rw [ho] at h; cases h
-  | panic => rw [hr] at ho; simp only [] at ho; rw [ho] at h; cases h
+          ++ tokenBytes (erasePretty k).2.2 ++ (if k.2.2.newline then prettyNewline else []) :=
+  pretty_string_bytes esc env pr sup t start s h
 
 /-! ### Where `Pretty` grants whitespace (the stack machine of pretty.rs)
 
@@ -157,16 +122,8 @@ theorem C14_pretty_where_entry (sup : List Nat) (ps : PStack) (name : Nat) (ks :
     (hc : (Tree.node (.element name) ks).firstChild?.isSome = true) :
     (prettify sup ps (.node (.element name) ks) .startTagClose).1 =
       (if hasInlineChild (.node (.element name) ks) || sup.contains name then StackEntry.mixed
-       else StackEntry.unmixed (elementSpace (.node (.element name) ks))) :: ps := by
-  unfold prettify
-  simp only [hc, if_true, Tree.value]
-  by_cases hi : hasInlineChild (.node (.element name) ks) = true
-  · simp [hi]
-  · by_cases hs : sup.contains name = true
-    · have : name ∈ sup := by simpa using hs
-      simp [hi, this]
-    · have : name ∉ sup := by simpa using hs
-      simp [hi, this]
+       else StackEntry.unmixed (elementSpace (.node (.element name) ks))) :: ps :=
+  pretty_where_entry sup ps name ks hc
 
 /-- Placement rule, full strength (all stacks): indentation or a newline is granted only outside
     mixed / suppressed content and outside the scope of `xml:space="preserve"` (the innermost
@@ -213,43 +170,8 @@ theorem C14_doctype_element (esc : Escapers) (env : Env) (pr : TokenParams) (t :
     (hd : doctypeName env t start = .ok dn)
     (ht : tokensWith esc env pr t start = .ok toks) :
     toks.head?.map (fun k => (k.1, k.2.1, k.2.2.text)) =
-      some (start, Output.startTagOpen name, fmt Gen.fmtStartTagOpen [dn]) := by
-  obtain ⟨rest, hanc⟩ := ancestorsOrSelf_of_at? t start _ hat
-  have hscope : namespacesInScope t start = some (namespacesInScopeChain (.node (.element name) ks :: rest)) := by
-    simp [namespacesInScope, hanc]
-  -- the doctype name
-  unfold doctypeName at hd
-  simp only [hat, Tree.value] at hd
-  have hstack : doctypeStack t start (.node (.element name) ks) =
-      (initStack t start).push (Tree.node (.element name) ks).nsDecls := by
-    simp [doctypeStack, initStack]
-  rw [hstack] at hd
-  -- the first token
-  unfold tokensWith at ht
-  have hg : genOutputs t start =
-      genNode (namespacesInScopeChain (.node (.element name) ks :: rest)) true start (.node (.element name) ks) := by
-    simp [genOutputs, hat, hscope]
-  rw [hg, genNode_element] at ht
-  simp only [List.cons_append, List.nil_append, renderAllWith, renderAtWith, hat, renderXmlWith] at ht
-  cases hf : ((initStack t start).push (Tree.node (.element name) ks).nsDecls).elementFullname env name with
-  | error e => simp [hf] at hd
-  | ok full =>
-    simp only [hf] at hd ht
-    cases hd
-    by_cases hc : (env.nsOfName name == Env.noNamespace &&
-        ((initStack t start).push (Tree.node (.element name) ks).nsDecls).hasDefaultNamespace) = true
-    · simp [hc] at ht
-    simp only [hc, Bool.false_eq_true, if_false] at ht
-    split at ht
-    · rename_i l hl
-      split at hl
-      · cases hl
-        cases ht
-        rfl
-      · cases hl
-      · cases hl
-    · cases ht
-    · cases ht
+      some (start, Output.startTagOpen name, fmt Gen.fmtStartTagOpen [dn]) :=
+  doctype_element esc env pr t start name ks hat dn toks hd ht
 
 /-- Document-rooted serialisation: the stack the doctype writer builds for the document element
     (`namespaces_in_scope(element)` + the element's declarations) has the same top frame as the
@@ -258,22 +180,8 @@ theorem C14_doctype_element (esc : Escapers) (env : Env) (pr : TokenParams) (t :
     before the document element (comments, PIs) leave the stack alone (`C10_stack_traversal`). -/
 theorem C14_doctype_document (t : Tree) (start : Path) (i : Nat) (doc el : Tree)
     (hdoc : t.at? start = some doc) (hel : t.at? (start ++ [i]) = some el) :
-    (doctypeStack t (start ++ [i]) el).top = ((initStack t start).push el.nsDecls).top := by
-  obtain ⟨rest, hanc⟩ := ancestorsOrSelf_of_at? t start doc hdoc
-  have hanc2 := ancestorsOrSelf_child t start i _ el hanc hel
-  have h1 : namespacesInScope t start = some (namespacesInScopeChain (doc :: rest)) := by
-    simp [namespacesInScope, hanc]
-  have h2 : namespacesInScope t (start ++ [i]) = some (namespacesInScopeChain (el :: doc :: rest)) := by
-    simp [namespacesInScope, hanc2]
-  unfold doctypeStack initStack
-  rw [h1, h2]
-  simp only [Option.getD_some, FStack.new, FStack.push]
-  by_cases he : el.nsDecls.isEmpty = true
-  · simp only [he, if_true, FStack.top, List.headD_cons]
-    have hnil : el.nsDecls = [] := by simpa using he
-    simp [namespacesInScopeChain, traverseChain, hnil, traverseDecls]
-  · simp only [he, FStack.top, List.headD_cons]
-    exact fullnameInfoNew_inScope_child el (doc :: rest)
+    (doctypeStack t (start ++ [i]) el).top = ((initStack t start).push el.nsDecls).top :=
+  doctype_document_top t start i doc el hdoc hel
 
 /-! ### The same rules read off the tree -/
 
@@ -305,23 +213,8 @@ theorem C14_pretty_where_tree_mixed (esc : Escapers) (env : Env) (pr : TokenPara
     (hw : k.2.2.indentation > 0 ∨ k.2.2.newline = true) :
     ∃ rel, k.1 = start ++ rel ∧
       ∀ a name, OpenAbove n rel a → a.value = .element name → a.firstChild?.isSome = true →
-        hasInlineChild a = false ∧ sup.contains name = false := by
-  obtain ⟨rel, node, hp, hnode, hm⟩ :=
-    pretty_where_notMixed sup t esc env pr start n inScope hat hs ks h k hk hw
-  refine ⟨rel, hp, fun a name ha hv hc => ?_⟩
-  have hopen : entryFor sup a ∈ openEntryOf sup a := by simp [openEntryOf, hv, hc]
-  have hin := openAbove_entry sup n rel a ha _ hopen
-  have hne : entryFor sup a ≠ StackEntry.mixed := by
-    intro he
-    have : PStack.inMixed (pentriesAbove sup n rel) = true := by
-      simp only [PStack.inMixed, List.any_eq_true]
-      exact ⟨_, hin, by simp [he]⟩
-    rw [hm] at this
-    cases this
-  have h3 : ¬ (hasInlineChild a = true ∨ sup.contains name = true) :=
-    fun hor => hne ((entryFor_mixed_iff sup a name hv).mpr hor)
-  simp only [not_or, Bool.not_eq_true] at h3
-  exact h3
+        hasInlineChild a = false ∧ sup.contains name = false :=
+  pretty_where_tree_mixed esc env pr sup t start n inScope hat hs ks h k hk hw
 
 /-- `xml:space="preserve"` on trees, full strength: a token is indented only if the entries of the
     open elements its whitespace lands in (its own element's included for an end tag) are not in
@@ -366,15 +259,8 @@ theorem C14_pretty_text_token (esc : Escapers) (env : Env) (pr : TokenParams) (s
     (t : Tree) (start : Path) (ks : List (Path × Output × PrettyOutputToken))
     (h : prettyTokensWith esc env pr sup t start = .ok ks)
     (p : Path) (c : Str) (tok : PrettyOutputToken) (hk : (p, Output.text c, tok) ∈ ks) :
-    tok.indentation = 0 ∧ tok.newline = false := by
-  obtain ⟨h1, h2⟩ := pretty_token_kinds sup t esc env pr start ks h _ hk
-  constructor
-  · cases hi : tok.indentation with
-    | zero => rfl
-    | succ m => exact absurd (h1 (by simp [hi])) (by simp [Output.opensMarkup])
-  · cases hn : tok.newline with
-    | false => rfl
-    | true => exact absurd (h2 hn) (by simp [Output.closesMarkup])
+    tok.indentation = 0 ∧ tok.newline = false :=
+  pretty_text_token_plain esc env pr sup t start ks h p c tok hk
 
 /-- Between tokens, on the trees the indentation clause ranges over (`TextOk`: well-formed
     documents and element-rooted subtrees — leaf kinds are leaves, no text directly under a
@@ -484,19 +370,8 @@ theorem C14_decl (esc : Escapers) (env : Env) (p : XmlParams) (t : Tree) (start 
       (∀ d, p.declaration = some d → Prolog.xmlDecl s = some ('\n' :: (dt ++ body))) ∧
       (p.declaration = none → p.declBytes = []) ∧
       (∀ d, p.doctype = some d → Prolog.doctypeDecl (dt ++ body) = some ('\n' :: body)) ∧
-      (p.doctype = none → dt = []) := by
-  obtain ⟨dt, body, hdt, hb, hs⟩ := xmlString_split esc env p t start s h
-  refine ⟨dt, body, hb, hs, ?_, ?_, ?_, ?_⟩
-  · intro d hd
-    rw [hs, List.append_assoc]
-    simp only [XmlParams.declBytes, hd]
-    exact Prolog.xmlDecl_written d _ (fun e he => henc d e hd he)
-  · intro hd; simp [XmlParams.declBytes, hd]
-  · intro d hd
-    simp only [DoctypeWritten, hd] at hdt
-    obtain ⟨name, hn, rfl⟩ := hdt
-    exact Prolog.doctypeDecl_written d name body (hname name hn) (hids d hd)
-  · intro hd; simpa [DoctypeWritten, hd] using hdt
+      (p.doctype = none → dt = []) :=
+  decl_grammar esc env p t start s h henc hids hname
 
 /-- The hypotheses of `C14_decl` are necessary, by closed witnesses: the strings are copied
     literally, so an encoding or identifier containing `"` ends its literal early, and a quote-free
@@ -557,5 +432,166 @@ example :
       ).okValue?.map (fun l => (l.filter (fun k => k.2.1 == Output.text [']',']','>'])).map
         (fun k => (k.1, String.ofList k.2.2.text)))
     = some [([0, 0, 0], "<![CDATA[]]]]><![CDATA[>]]>"), ([0, 1, 0], "]]&gt;")] := by decide
+
+/-! ### C14_options: the output reparses to the original tree
+
+The default round trip (C01_roundtrip) transported along "same spelling up to the character data runs"
+(`NSNode.Resp`): a text node under a CDATA-section element is the run `cdataTokens` (sections cut inside
+every `]]>`, `&#xD;` as a text token between two sections), elsewhere one text token `serialize_text`. -/
+
+/-- `serialize_cdata s` IS the canonical rendering of an alternation of CDATA tokens and `&#xD;` text
+    tokens that (a) may stand where a text token stands — every token meets the tokenizer's side
+    condition, no `]]>` in a section, no two text tokens in a row — and (b) denotes `s` for the builder
+    (no CR inside a section, so line-end normalisation changes nothing). -/
+theorem C14_cdata_tokens (s : Str) (hs : s.all isXmlChar = true) :
+    renderTokens (cdataTokens s) = serializeCdata s ∧ GoodRun (cdataTokens s) ∧
+    partsValue (cdataPartsGo [] s) = s ∧ (∀ p ∈ cdataPartsGo [] s, p.Well) ∧
+    ∀ t j, SPart.cd t j ∈ cdataPartsGo [] s → '\r' ∉ t.text :=
+  ⟨renderTokens_cdataTokens s, cdataTokens_goodRun s hs, by simpa using partsValue_cdataPartsGo s [] (by simp),
+   cdataPartsGo_well s [], cdataPartsGo_noCr s [] (by simp)⟩
+
+/-- `serialize_xml_string` under ANY token parameters and for any start node is the canonical rendering
+    of `serTokensAtO` (extends C01_serialised_is_rendering_at to CDATA-section elements). -/
+theorem C14_serialised_is_rendering (env : Env) (pr : TokenParams) (t : Tree) (start : Path)
+    (hx : env.prefixStr Env.xmlPrefix ≠ []) (ht : t.allNodes (declsNamed env) = true) :
+    serializeString env pr t start =
+      (match serTokensAtO env pr t start with
+       | .ok ts => .ok (renderTokens ts)
+       | .error e => .err e) :=
+  serializeString_serTokensAtO env pr t start hx ht
+
+/-- The token list meets the tokenizer contract, also with `unescaped_gt` and CDATA-section elements. -/
+theorem C14_rendering_lexok (env : Env) (pr : TokenParams) (t : Tree) (hr : Representable env t = true)
+    (ts : List Token) (h : serTokensAtO env pr t [] = .ok ts) : LexOK false ts = true :=
+  options_lexOK env pr hr h
+
+/-- **C14_options_gt**: `unescaped_gt = true`. -/
+theorem C14_options_gt (env : Env) (t : Tree) (hr : Representable env t = true) (s : Str)
+    (hs : serializeString env { unescapedGt := true } t [] = .ok s) :
+    ∃ p, parseString .document env s = .ok p ∧ p.tree = t ∧ p.env = env :=
+  options_roundtrip env _ hr hs
+
+/-- **C14_options_cdata**: any set of CDATA-section elements, `unescaped_gt` on or off: the output
+    reparses to the ORIGINAL tree (ids, declarations, prefixes), tables unchanged; hence `deep_equal`. -/
+theorem C14_options_cdata (env : Env) (pr : TokenParams) (t : Tree) (hr : Representable env t = true) (s : Str)
+    (hs : serializeString env pr t [] = .ok s) :
+    ∃ p, parseString .document env s = .ok p ∧ p.tree = t ∧ p.env = env ∧ deepEqual p.tree t = true := by
+  obtain ⟨p, h1, h2, h3⟩ := options_roundtrip env pr hr hs
+  refine ⟨p, h1, h2, h3, ?_⟩
+  rw [h2]
+  exact deepEqual_self_representable env (by simp only [Representable, Bool.and_eq_true] at hr; exact hr.1)
+
+/-- `parse_fragment` of a representable fragment (several top-level elements, top-level text). -/
+theorem C14_options_cdata_fragment (env : Env) (pr : TokenParams) (t : Tree)
+    (hr : RepresentableFragment env t = true) (s : Str) (hs : serializeString env pr t [] = .ok s) :
+    ∃ p, parseString .fragment env s = .ok p ∧ p.tree = t ∧ p.env = env :=
+  options_roundtrip_fragment env pr hr hs
+
+/-- The parameters never decide about success: it is `namesWritable` (C01_serialises). -/
+theorem C14_options_serialises (env : Env) (pr : TokenParams) (t : Tree) (hr : RepresentableFragment env t = true) :
+    (∃ s, serializeString env pr t [] = .ok s) ↔ namesWritable env t [] = some true :=
+  options_serialises env pr hr
+
+/-- **C14_options_decl**: with or without an XML declaration (encoding an `EncName` or absent, any
+    standalone), any token parameters, no doctype (xot refuses to parse one: `DtdUnsupported`), no
+    indentation: `parse` of the output returns the original tree. -/
+theorem C14_options_decl (env : Env) (p : XmlParams) (t : Tree) (hr : Representable env t = true)
+    (hdt : p.doctype = none) (hind : p.indentation = none)
+    (henc : ∀ d e, p.declaration = some d → d.encoding = some e → Prolog.isEncName e = true)
+    (s : Str) (hs : serializeXmlString env p t [] = .ok s) :
+    ∃ q, parseString .document env s = .ok q ∧ q.tree = t ∧ q.env = env ∧ deepEqual q.tree t = true := by
+  obtain ⟨q, h1, h2, h3⟩ := options_decl_roundtrip env p hr hdt hind henc hs
+  refine ⟨q, h1, h2, h3, ?_⟩
+  rw [h2]
+  exact deepEqual_self_representable env (by simp only [Representable, Bool.and_eq_true] at hr; exact hr.1)
+
+/-- The tokenizer on the written declaration: one `Declaration` token with version `1.0`, then the tokens
+    of the body (the line feed behind `?>` is skipped). -/
+theorem C14_decl_lexed (d : Declaration) (ts : List Token) (h : LexOK false ts = true)
+    (henc : ∀ e, d.encoding = some e → Prolog.isEncName e = true) :
+    ∃ v e sa sp ts', lexDocument (d.bytes ++ renderTokens ts) =
+        (.declaration ⟨['1', '.', '0'], v⟩ e sa sp :: ts', none) ∧
+      ts'.map Token.erase = ts.map Token.erase :=
+  lexDocument_declaration_erase d ts h (fun e he => isEncName_encChar (henc e he))
+
+/-- Declaration + `parse_fragment` (a fragment start node serialised with a declaration): rejected by the
+    tokenizer at position 0, whatever follows — `<?xml ` is an error inside element content. -/
+theorem C14_options_decl_fragment (env : Env) (d : Declaration) (r : Str) :
+    parseString .fragment env (d.bytes ++ r) = .err (.xmlParser 0) env :=
+  options_decl_fragment_rejected env d r
+
+/-- Non-vacuity, closed: `<r xmlns="urn:a">]]>CR</r>` (tables of Props/C01) with `r` (name 2) as
+    CDATA-section element, `unescaped_gt` and a declaration: three sections and one reference. -/
+def c14Doc : Tree :=
+  .node .document [.node (.element 2) [.node (.namespace 0 2) [], .node (.text [']', ']', '>', '\r']) []]]
+def c14Params : XmlParams :=
+  { cdataSectionElements := [2], unescapedGt := true, declaration := some ⟨some ['U','T','F','-','8'], none⟩ }
+def c14Text : Str :=
+  "<?xml version=\"1.0\" encoding=\"UTF-8\"?>\n<r xmlns=\"urn:a\"><![CDATA[]]]]><![CDATA[>]]>&#xD;<![CDATA[]]></r>".toList
+
+example : serializeXmlString c01Env c14Params c14Doc [] = .ok c14Text := by decide
+example : ∃ q, parseString .document c01Env c14Text = .ok q ∧ q.tree = c14Doc ∧ q.env = c01Env := by
+  obtain ⟨q, h1, h2, h3, _⟩ := C14_options_decl c01Env c14Params c14Doc (by decide) rfl rfl
+    (by intro d e hd he; cases hd; cases he; decide) c14Text (by decide)
+  exact ⟨q, h1, h2, h3⟩
+
+/-! ### C14_options_indent: with indentation the output reparses to the tree plus white space
+
+`prettyTree sup t` (Lemmas/SerIndentDefs.lean) is `t` with one text node of line feed + blanks in front of
+every child and behind the last child of every element whose content the `Pretty` stack grants white space
+to.  White space between the top-level nodes is skipped by the tokenizer (Lemmas/LexLines.lean). -/
+
+/-- **C14_options_indent** (document start node): indentation with any suppress list, any token
+    parameters, with or without declaration, no doctype: `parse` of the output returns `prettyTree sup t`,
+    which differs from `t` only by added whitespace-only text nodes (`AddsWs`); tables unchanged. -/
+theorem C14_options_indent (env : Env) (p : XmlParams) (sup : List Nat) (t : Tree) (hr : Representable env t = true)
+    (hdt : p.doctype = none) (hind : p.indentation = some sup)
+    (henc : ∀ d e, p.declaration = some d → d.encoding = some e → Prolog.isEncName e = true)
+    (s : Str) (hs : serializeXmlString env p t [] = .ok s) :
+    ∃ q, parseString .document env s = .ok q ∧ q.tree = prettyTree sup t ∧ q.env = env ∧ AddsWs t q.tree := by
+  obtain ⟨q, h1, h2, h3⟩ := indent_decl_roundtrip env sup p hr hdt hind henc hs
+  exact ⟨q, h1, h2, h3, by rw [h2]; exact addsWs_prettyTree sup t⟩
+
+/-- The indented string itself: the top-level nodes, spelled with the white space runs inside the elements
+    (`spellNodeP`), one per line; and `prettyTree` of a representable document is representable. -/
+theorem C14_indent_string (env : Env) (pr : TokenParams) (sup : List Nat) (ks : List Tree)
+    (hr : Representable env (.node .document ks) = true) (s : Str)
+    (hs : serializePretty env pr sup (.node .document ks) [] = .ok s) :
+    s = Lex.Canon.renderLines (spellTopP env pr sup ks) ∧ Representable env (prettyTree sup (.node .document ks)) = true :=
+  ⟨(serializePretty_document env pr sup hr hs).1, representable_prettyTree env sup hr⟩
+
+/-- **C14_indent_where**: where no white space node is added.  For an element `n` written in content whose
+    `Pretty` stack is `ps` (the entries of the open elements around it):
+    (a) `n` has a text child or is named in the suppress list: nothing is added anywhere inside `n`;
+    (b) an open element around `n` is such an element (`ps.inMixed`): likewise, at any depth;
+    (c) `n` is in `xml:space="preserve"` scope (innermost `preserve` / `default`, its own attribute
+        included): no white space node among its children (a descendant with `xml:space="default"` may
+        get some again). -/
+theorem C14_indent_where (sup : List Nat) (ps : PStack) (name : Nat) (ks : List Tree) :
+    ((hasInlineChild (.node (.element name) ks) = true ∨ sup.contains name = true) →
+      prettyNode sup ps (.node (.element name) ks) = .node (.element name) ks) ∧
+    (ps.inMixed = true → ∀ n, prettyNode sup ps n = n) ∧
+    (PStack.inSpacePreserve (entryFor sup (.node (.element name) ks) :: ps) = true →
+      prettyNode sup ps (.node (.element name) ks) =
+        .node (.element name) (ks.map (prettyNode sup (entryFor sup (.node (.element name) ks) :: ps)))) :=
+  ⟨prettyNode_mixed_element sup ps name ks, fun h n => prettyNode_mixed sup n ps h, prettyNode_preserve sup ps name ks⟩
+
+/-- Non-vacuity, closed (tables of Props/C01; `k` = name 4, `t` = name 5, both in no namespace):
+    `<k><t>x<k/></t><t/></k>` is written on four lines; nothing is added inside the mixed element `t`. -/
+def c14Ind : Tree :=
+  .node .document [.node (.element 4) [.node (.element 5) [.node (.text ['x']) [], .node (.element 4) []],
+    .node (.element 5) []]]
+
+def c14IndText : Str := "<k>\n  <t>x<k/></t>\n  <t/>\n</k>\n".toList
+
+example : serializeXmlString c01Env { indentation := some [] } c14Ind [] = .ok c14IndText := by decide
+example : prettyTree [] c14Ind =
+    .node .document [.node (.element 4) [.node (.text ['\n', ' ', ' ']) [],
+      .node (.element 5) [.node (.text ['x']) [], .node (.element 4) []], .node (.text ['\n', ' ', ' ']) [],
+      .node (.element 5) [], .node (.text ['\n']) []]] := by rfl
+example : ∃ q, parseString .document c01Env c14IndText = .ok q ∧ q.tree = prettyTree [] c14Ind := by
+  obtain ⟨q, h1, h2, _⟩ := C14_options_indent c01Env { indentation := some [] } [] c14Ind (by decide) rfl rfl
+    (by intro d e hd; cases hd) c14IndText (by decide)
+  exact ⟨q, h1, h2⟩
 
 end XotModel.Props
